@@ -21,6 +21,7 @@
 #include <vector>
 #include <fcntl.h>
 #include <sys/mman.h>
+#include <sys/prctl.h>
 #include <sys/stat.h>
 #include <sys/time.h>
 #include <sys/types.h>
@@ -519,6 +520,10 @@ namespace vf
     {
         Global &G = g();
         G.worker = w;
+        // a worker must never outlive the runner (a killed runner used to leave spinning orphans behind)
+        prctl(PR_SET_PDEATHSIG, SIGKILL);
+        if (getppid() == 1)
+            _exit(0);
         redirect_stderr();
         Slot &slot = G.sh->slots[w];
         for (;;)
@@ -835,6 +840,7 @@ int main(int argc, char **argv)
             if (p == 0)
             {
                 g().worker = (int)(MAX_WORKERS - 1 - i);
+                prctl(PR_SET_PDEATHSIG, SIGKILL);
                 redirect_stderr();
                 run_one(L.suite, L.local);
                 fflush(nullptr);
